@@ -272,9 +272,18 @@ func writeFiles(dir string, files map[string]string) error {
 
 // runBinary runs thriftgo in dir; anything it writes lands under dir/out or dir/gen-*.
 func runBinary(bin, dir string, args []string) obs {
+	o := runBinaryT(bin, dir, args, hangAfter)
+	if o.Hang {
+		// the machine may be busy: only a run that also exceeds 6x the bound when run again counts as a hang
+		o = runBinaryT(bin, dir, args, 6*hangAfter)
+	}
+	return o
+}
+
+func runBinaryT(bin, dir string, args []string, limit time.Duration) obs {
 	os.RemoveAll(filepath.Join(dir, "out"))
 	before := countFiles(dir)
-	ctx, cancel := context.WithTimeout(context.Background(), hangAfter)
+	ctx, cancel := context.WithTimeout(context.Background(), limit)
 	defer cancel()
 	cmd := exec.CommandContext(ctx, bin, args...)
 	cmd.Dir = dir
@@ -369,6 +378,7 @@ type job struct {
 	files map[string]string
 	ip    inproc
 	obs   map[string]obs
+	bes   []string
 }
 
 var backends = []string{"go", "fastgo"}
@@ -427,6 +437,9 @@ func run(repo, dir string, seed uint64, tier string) error {
 	if tier == "thorough" {
 		nRandom, perRule = 99, 2
 	}
+	if v := os.Getenv("VERIF_C04_BASES"); v != "" { // development aid
+		fmt.Sscan(v, &nRandom)
+	}
 	var cases []*Case
 	cases = append(cases, buildCases("minimal", minimalBase, r, true, 0)...)
 	for k := 0; k < nRandom; k++ {
@@ -477,8 +490,12 @@ func run(repo, dir string, seed uint64, tier string) error {
 		be string
 	}
 	var units []unit
-	for _, j := range jobs {
-		for _, be := range backends {
+	for i, j := range jobs {
+		j.bes = backends
+		if !(j.c.Base == "minimal" && (j.c.Pos == "main" || j.c.Pos == "base" || j.c.Pos == "cmdline")) {
+			j.bes = []string{backends[i%2]} // elsewhere the two backends alternate
+		}
+		for _, be := range j.bes {
 			units = append(units, unit{j, be})
 		}
 	}
@@ -525,7 +542,7 @@ func run(repo, dir string, seed uint64, tier string) error {
 				out.Count("inproc:" + strings.SplitN(j.ip.Staged, " ", 2)[0])
 			}
 		}
-		for _, be := range backends {
+		for _, be := range j.bes {
 			o := j.obs[be]
 			prog := j.ip.Op
 			syntaxBad := c.SyntaxBad
@@ -555,7 +572,7 @@ func run(repo, dir string, seed uint64, tier string) error {
 			}
 		}
 		if c.Rule != "none" && c.Base == "minimal" && c.Pos == "inc" && !sampled[c.Rule] && len(sampled)%4 == 0 {
-			out.Sample(map[string]interface{}{"rule": c.Rule, "variant": c.Variant, "pos": c.Pos, "staged": j.ip.Staged, "go": j.obs["go"].class(), "fastgo": j.obs["fastgo"].class()})
+			out.Sample(map[string]interface{}{"rule": c.Rule, "variant": c.Variant, "pos": c.Pos, "staged": j.ip.Staged, "backend": j.bes[0], "binary": j.obs[j.bes[0]].class()})
 		}
 		sampled[c.Rule] = true
 	}
